@@ -9,19 +9,22 @@ import (
 	"bytes"
 	"encoding/json"
 	"fmt"
+	"sort"
+	"strconv"
 	"strings"
 
 	icl "github.com/moov-io/imagecashletter"
 )
 
 type apiPools struct {
-	jsonDocs  [][]byte // valid file documents (some with a client ID, some without)
-	jsonIDs   []string
-	x9E, x9A  [][]byte // valid uploads, variable length, EBCDIC / ASCII
-	badBodies []namedBytes
-	headers   []namedBytes // bodies for update-header (valid and not)
-	cashLts   []namedBytes // bodies for add-cash-letter
-	clIDs     []string
+	jsonDocs    [][]byte // valid file documents (some with a client ID, some without)
+	jsonIDs     []string
+	x9E, x9A    [][]byte // valid uploads, variable length, EBCDIC / ASCII
+	badBodies   []namedBytes
+	headers     []namedBytes // bodies for update-header (valid and not)
+	cashLts     []namedBytes // bodies for add-cash-letter
+	clIDs       []string
+	mistypeDocs [][]byte // one forward and one return document, sources of the mistyped-member bodies
 }
 
 type namedBytes struct {
@@ -37,8 +40,18 @@ func buildPools(r rng, n int) *apiPools {
 		if err != nil {
 			continue
 		}
-		populateIDs(f, r)
 		k := len(p.jsonDocs)
+		if k%2 == 1 {
+			// these documents get their bundles out of sequence order below: at least two bundles in a cash letter
+			two := false
+			for ci := range f.CashLetters {
+				two = two || len(f.CashLetters[ci].Bundles) >= 2
+			}
+			if !two {
+				continue
+			}
+		}
+		populateIDs(f, r)
 		id := fmt.Sprintf("cf%d", k)
 		if k%3 == 2 {
 			id = "" // the server picks the ID
@@ -49,6 +62,20 @@ func buildPools(r rng, n int) *apiPools {
 			p.clIDs = append(p.clIDs, f.CashLetters[ci].ID)
 		}
 		js, _ := json.Marshal(f)
+		if k%2 == 1 {
+			// bundles stored out of sequence order (a JSON upload is stored as it is)
+			js = editJSON(js, func(path string, m map[string]any) {
+				if strings.HasSuffix(path, ".bundleHeader") {
+					for _, key := range []string{"BundleSequenceNumber", "bundleSequenceNumber"} {
+						if sn, ok := m[key].(string); ok && sn != "" {
+							if n, err := strconv.Atoi(strings.TrimSpace(sn)); err == nil {
+								m[key] = fmt.Sprintf("%04d", 9-n)
+							}
+						}
+					}
+				}
+			})
+		}
 		p.jsonDocs = append(p.jsonDocs, js)
 		p.jsonIDs = append(p.jsonIDs, id)
 		if e, err, pn := realWrite(f, encCfg{LP: true, EBCDIC: true}); err == nil && pn == nil {
@@ -114,6 +141,29 @@ func buildPools(r rng, n int) *apiPools {
 			}
 			rb, _ := json.Marshal(m)
 			p.cashLts = append(p.cashLts, namedBytes{"raw-cashletter", rb, false})
+			// a cash letter whose addenda A leave the truncation indicator out (stored as posted)
+			tb := editJSON(cb, func(path string, m map[string]any) {
+				if _, ok := m["truncationIndicator"]; ok {
+					m["truncationIndicator"] = ""
+				}
+				if strings.HasSuffix(path, "") && path == "" {
+					m["id"] = fmt.Sprintf("t%d-%d", k, ci)
+				}
+			})
+			p.clIDs = append(p.clIDs, fmt.Sprintf("t%d-%d", k, ci))
+			p.cashLts = append(p.cashLts, namedBytes{"cashletter-blank-truncation", tb, false})
+		}
+	}
+	for kind := 1; kind <= 2; kind++ {
+		for tries := 0; tries < 20; tries++ {
+			f, err := genFile(r, genOpts{maxCL: 1, maxBundles: 1, maxItems: 2, mutateP: 20, kind: kind})
+			if err != nil {
+				continue
+			}
+			f.ID = fmt.Sprintf("mt%d", kind)
+			js, _ := json.Marshal(f)
+			p.mistypeDocs = append(p.mistypeDocs, js)
+			break
 		}
 	}
 	doc := p.jsonDocs[0]
@@ -135,6 +185,21 @@ func buildPools(r rng, n int) *apiPools {
 		// rejections whose error message quotes bytes of the upload: not UTF-8, control characters
 		{"x9-binary-record-type", append([]byte{0, 0, 0, 80, 0xff, 0xfe}, bytes.Repeat([]byte{' '}, 78)...), true},
 		{"json-control-char-in-member", controlCharDoc(doc), true},
+	}
+	// a length prefix at the top of the 32-bit range, after one good record (the sum offset+length wraps in
+	// 32-bit arithmetic) and as the very first prefix
+	if n0 := int(x[0])<<24 | int(x[1])<<16 | int(x[2])<<8 | int(x[3]); 4+n0 < len(x) {
+		for _, pre := range [][]byte{{0xff, 0xff, 0xff, 0xff}, {0xff, 0xff, 0xff, 0xfc}, {0x80, 0x00, 0x00, 0x00}} {
+			b := append(append([]byte{}, x[:4+n0]...), pre...)
+			b = append(b, x[4+n0+4:min(len(x), 4+n0+200)]...)
+			p.badBodies = append(p.badBodies, namedBytes{fmt.Sprintf("x9-prefix-%02x%02x%02x%02x-after-record", pre[0], pre[1], pre[2], pre[3]), b, true})
+			p.badBodies = append(p.badBodies, namedBytes{fmt.Sprintf("x9-prefix-%02x%02x%02x%02x-first", pre[0], pre[1], pre[2], pre[3]), append(append([]byte{}, pre...), x[4:120]...), true})
+		}
+	}
+	// one member of a valid document given a value of the wrong JSON type (seeded choice of members, every
+	// record type of a forward and of a return document)
+	for _, d := range p.mistypeDocs {
+		p.badBodies = append(p.badBodies, mistypedDocs(r, d, 40)...)
 	}
 	// the last control record dropped (cut exactly at a record boundary)
 	if off := lastRecordOffset(x); off > 0 {
@@ -161,6 +226,114 @@ func buildPools(r rng, n int) *apiPools {
 	return p
 }
 
+// editJSON applies fn to every object of a document (path = dotted member names from the root)
+func editJSON(doc []byte, fn func(path string, m map[string]any)) []byte {
+	var root any
+	if json.Unmarshal(doc, &root) != nil {
+		return doc
+	}
+	var walk func(v any, path string)
+	walk = func(v any, path string) {
+		switch x := v.(type) {
+		case map[string]any:
+			fn(path, x)
+			for k, c := range x {
+				walk(c, path+"."+k)
+			}
+		case []any:
+			for _, c := range x {
+				walk(c, path)
+			}
+		}
+	}
+	walk(root, "")
+	b, _ := json.Marshal(root)
+	return b
+}
+
+// mistypedDocs: copies of a valid document in which one leaf member (seeded choice, n of them) holds a value
+// of another JSON type: an object, an array or a boolean for a string or a number; a non-numeric string
+// for a number
+func mistypedDocs(r rng, doc []byte, n int) []namedBytes {
+	var root any
+	if json.Unmarshal(doc, &root) != nil {
+		return nil
+	}
+	type leaf struct {
+		parent map[string]any
+		key    string
+		path   string
+	}
+	var leaves []leaf
+	var walk func(v any, path string)
+	walk = func(v any, path string) {
+		switch x := v.(type) {
+		case map[string]any:
+			keys := make([]string, 0, len(x))
+			for k := range x {
+				keys = append(keys, k)
+			}
+			sort.Strings(keys)
+			for _, k := range keys {
+				switch x[k].(type) {
+				case map[string]any, []any:
+					walk(x[k], path+"."+k)
+				case nil:
+				default:
+					leaves = append(leaves, leaf{x, k, path + "." + k})
+				}
+			}
+		case []any:
+			if len(x) > 0 {
+				walk(x[0], path+"[0]")
+			}
+		}
+	}
+	walk(root, "")
+	var out []namedBytes
+	for i := 0; i < n && len(leaves) > 0; i++ {
+		l := leaves[r.Intn(len(leaves))]
+		old := l.parent[l.key]
+		var bad any
+		switch r.Intn(4) {
+		case 0:
+			bad = map[string]any{"x": 1}
+		case 1:
+			bad = []any{1}
+		case 2:
+			bad = true
+		default:
+			if _, isNum := old.(float64); isNum {
+				bad = "12x"
+			} else {
+				bad = 7.5
+			}
+		}
+		l.parent[l.key] = bad
+		b, _ := json.Marshal(root)
+		l.parent[l.key] = old
+		kind := "object"
+		switch bad.(type) {
+		case []any:
+			kind = "array"
+		case bool:
+			kind = "bool"
+		case string:
+			kind = "text-for-number"
+		case float64:
+			kind = "number-for-text"
+		}
+		name := l.path
+		if j := strings.LastIndex(name, "."); j >= 0 {
+			if k := strings.LastIndex(name[:j], "."); k >= 0 {
+				name = name[k+1:]
+			}
+		}
+		out = append(out, namedBytes{"json-mistyped-member:" + strings.Trim(name, ".") + ":" + kind, b, true})
+	}
+	return out
+}
+
 // blankDerived removes / zeroes the members a build would compute: embedded lengths, control totals,
 // sequence and record numbers.
 func blankDerived(v any) {
@@ -173,7 +346,7 @@ func blankDerived(v any) {
 			case "bundleItemsCount", "bundleTotalAmount", "micrValidTotalAmount", "bundleImagesCount", "cashLetterItemsCount",
 				"cashLetterTotalAmount", "cashLetterImagesCount", "cashLetterBundleCount":
 				x[k] = 0
-			case "bundleSequenceNumber", "eceInstitutionItemSequenceNumber":
+			case "bundleSequenceNumber", "BundleSequenceNumber", "eceInstitutionItemSequenceNumber":
 				x[k] = ""
 			default:
 				blankDerived(c)
@@ -282,8 +455,13 @@ func (g *apiGen) create(bad bool) *apiReq {
 		if r.Intn(2) == 0 {
 			k := r.Intn(len(g.p.jsonDocs))
 			q.Body, q.CT = g.p.jsonDocs[k], []string{"application/json", "application/json; charset=utf-8"}[r.Intn(2)]
+			q.Src = "clean"
 		} else {
-			q.Body, q.CT = g.p.x9E[r.Intn(len(g.p.x9E))], []string{"text/plain", "application/octet-stream", ""}[r.Intn(3)]
+			k := r.Intn(len(g.p.x9E))
+			q.Body, q.CT = g.p.x9E[k], []string{"text/plain", "application/octet-stream", ""}[r.Intn(3)]
+			if k%2 == 0 { // odd entries carry stale control records
+				q.Src = "clean"
+			}
 		}
 		return q
 	}
@@ -315,10 +493,19 @@ func (g *apiGen) create(bad bool) *apiReq {
 	switch r.Intn(3) {
 	case 0:
 		q.Body, q.CT = g.p.jsonDocs[r.Intn(len(g.p.jsonDocs))], "application/json"
+		q.Src = "clean"
 	case 1:
-		q.Body, q.Multipart = g.p.x9A[r.Intn(len(g.p.x9A))], "file:text/plain"
+		k := r.Intn(len(g.p.x9A))
+		q.Body, q.Multipart = g.p.x9A[k], "file:text/plain"
+		if k%2 == 0 {
+			q.Src = "clean"
+		}
 	default:
-		q.Body, q.Multipart = g.p.x9E[r.Intn(len(g.p.x9E))], []string{"file:application/octet-stream", "file:"}[r.Intn(2)]
+		k := r.Intn(len(g.p.x9E))
+		q.Body, q.Multipart = g.p.x9E[k], []string{"file:application/octet-stream", "file:"}[r.Intn(2)]
+		if k%2 == 0 {
+			q.Src = "clean"
+		}
 	}
 	return q
 }
@@ -380,13 +567,21 @@ func (g *apiGen) next() *apiReq {
 		for b.bad {
 			b = g.p.headers[r.Intn(len(g.p.headers))]
 		}
-		return &apiReq{Kind: "upd", ID: g.anyID(), Body: b.b}
+		q := &apiReq{Kind: "upd", ID: g.anyID(), Body: b.b}
+		if b.name == "valid-header" {
+			q.Src = "clean"
+		}
+		return q
 	case 5, 6:
 		b := g.p.cashLts[r.Intn(len(g.p.cashLts))]
 		for b.bad {
 			b = g.p.cashLts[r.Intn(len(g.p.cashLts))]
 		}
-		return &apiReq{Kind: "add", ID: g.anyID(), Body: b.b}
+		q := &apiReq{Kind: "add", ID: g.anyID(), Body: b.b}
+		if b.name == "valid-cashletter" {
+			q.Src = "clean"
+		}
+		return q
 	case 7, 8:
 		return &apiReq{Kind: "rem", ID: g.anyID(), CID: g.p.clIDs[r.Intn(len(g.p.clIDs))]}
 	default:
@@ -404,6 +599,7 @@ type apiStep struct {
 	before string // deep snapshot before
 	after  string // deep snapshot after
 	reused string // server-generated ID that was already taken (or the uploaded document's own)
+	undec  string // rendered contents (200) that the reader does not decode back to the stored records
 }
 
 // runHistoryReal executes a generated history against a fresh server.
@@ -411,6 +607,9 @@ func runHistoryReal(g *apiGen, reg *registry, n int, fixed []*apiReq) []apiStep 
 	env := newAPIEnv(reg)
 	defer env.close()
 	var steps []apiStep
+	// files whose whole history consists of payloads that are valid on their own: for those the rendered
+	// contents must decode back to the stored records
+	clean := map[string]bool{}
 	for i := 0; i < n || i < len(fixed); i++ {
 		var q *apiReq
 		if i < len(fixed) {
@@ -436,6 +635,25 @@ func runHistoryReal(g *apiGen, reg *registry, n int, fixed []*apiReq) []apiStep 
 			mustBeFresh := q.Kind == "c2" || !isJSON || up.ID == ""
 			if mustBeFresh && (taken[id] || (isJSON && up.ID != "" && id == up.ID)) {
 				st.reused = id
+			}
+		}
+		switch {
+		case (q.Kind == "c1" || q.Kind == "c2") && st.r.Status == 201:
+			clean[createdID(st.r)] = q.Src == "clean"
+		case (q.Kind == "upd" || q.Kind == "add") && st.r.Status/100 == 2 && q.Src != "clean":
+			clean[q.ID] = false
+		}
+		if q.Kind == "cont" && st.r.Status == 200 && clean[q.ID] {
+			if stored, err := env.repo.GetFile(q.ID); err == nil && stored != nil {
+				back, rerr, pn := realRead(st.r.Body, encCfg{LP: true, EBCDIC: true}, 1<<24)
+				switch {
+				case pn != nil:
+					st.undec = fmt.Sprint("reader panics: ", pn)
+				case rerr != nil:
+					st.undec = "reader refuses them: " + rerr.Error()
+				case census(dumpFile(&back)) != census(dumpFile(stored)):
+					st.undec = "records read back " + census(dumpFile(&back)) + ", records stored " + census(dumpFile(stored))
+				}
 			}
 		}
 		st.after = env.storeSnap()
@@ -487,12 +705,69 @@ func runAPI(cfg *config, prop string) *Report {
 	var hs []hist
 	var lines []string
 	reg := newRegistry()
+	regFRB := newRegistry()
+	// directed histories first: every JSON document created under its own ID, every kind of cash letter body
+	// added to it, every read-only request before and after - with FRB compatibility mode off and on
+	type directedHist struct {
+		frb  bool
+		reqs []*apiReq
+	}
+	var directed []directedHist
+	if replayFixed == nil {
+		pick := func(name string, want func(b []byte) bool) *namedBytes {
+			for i := range pools.cashLts {
+				if pools.cashLts[i].name == name && (want == nil || want(pools.cashLts[i].b)) {
+					return &pools.cashLts[i]
+				}
+			}
+			return nil
+		}
+		hasRNS := func(b []byte) bool { return bytes.Contains(b, []byte(`"routingNumberSummary":[{`)) }
+		for k, doc := range pools.jsonDocs {
+			id := pools.jsonIDs[k]
+			if id == "" {
+				continue
+			}
+			for _, frb := range []bool{false, true} {
+				reads := func() []*apiReq {
+					return []*apiReq{{Kind: "get", ID: id}, {Kind: "val", ID: id}, {Kind: "get", ID: id}, {Kind: "cont", ID: id}, {Kind: "get", ID: id}, {Kind: "list"}}
+				}
+				reqs := []*apiReq{{Kind: "c1", Body: doc, CT: "application/json", Src: "clean"}}
+				reqs = append(reqs, reads()...)
+				for _, cb := range []*namedBytes{pick("valid-cashletter", hasRNS), pick("valid-cashletter", nil), pick("cashletter-blank-truncation", nil), pick("raw-cashletter", nil)} {
+					if cb == nil {
+						continue
+					}
+					q := &apiReq{Kind: "add", ID: id, Body: cb.b}
+					if cb.name == "valid-cashletter" {
+						q.Src = "clean"
+					}
+					reqs = append(reqs, q)
+					reqs = append(reqs, reads()...)
+				}
+				directed = append(directed, directedHist{frb, reqs})
+			}
+		}
+		if cfg.tier != "thorough" && len(directed) > 8 {
+			directed = directed[:8]
+		}
+		nHist += len(directed)
+	}
+	frbOf := func(h int) bool {
+		if h < len(directed) {
+			return directed[h].frb
+		}
+		return replayFixed == nil && h%5 == 3
+	}
 	for h := 0; h < nHist; h++ {
 		g := &apiGen{r: r, p: pools, wBad: wBad, wRead: wRead}
 		var fixed []*apiReq
 		n := hLen
 		if replayFixed != nil {
 			fixed, n = replayFixed[h], 0
+		} else if h < len(directed) {
+			fixed, n = directed[h].reqs, 0
+			rep.count("history:directed")
 		} else if h%4 == 0 {
 			// start from a populated store
 			for k := 0; k < 3; k++ {
@@ -500,7 +775,15 @@ func runAPI(cfg *config, prop string) *Report {
 			}
 			n = hLen
 		}
-		steps := runHistoryReal(g, reg, n, fixed)
+		// every fifth history runs with FRB compatibility mode on (the library's verdicts are taken in the same mode)
+		hreg := reg
+		if frbOf(h) {
+			hreg = regFRB
+			setFRB(true)
+			rep.count("history:frb-mode-on")
+		}
+		steps := runHistoryReal(g, hreg, n, fixed)
+		setFRB(false)
 		hs = append(hs, hist{steps})
 		var ls []string
 		for _, s := range steps {
@@ -514,6 +797,12 @@ func runAPI(cfg *config, prop string) *Report {
 		return rep
 	}
 	for h, hi := range hs {
+		hreg := reg
+		setFRB(false)
+		if frbOf(h) {
+			hreg = regFRB
+			setFRB(true)
+		}
 		ms := strings.Split(outs[h], "|")
 		if len(ms) != len(hi.steps) {
 			rep.violate(Violation{Key: prop + ":driver-shape", What: "driver answered " + outs[h], Replay: map[string]any{"history": reqsOf(hi.steps)}, NoInput: true})
@@ -538,7 +827,7 @@ func runAPI(cfg *config, prop string) *Report {
 			replay := map[string]any{"history": reqsOf(hi.steps[:i+1]), "failing_request_index": i, "model_request": s.line,
 				"model_response": mresp, "real_status": s.r.Status, "real_body_head": headStr(s.r.Body, 300), "dropped": s.r.Dropped}
 			// 1. correspondence: response
-			if d := e2(reg, mresp, s.q, s.r); d != "" {
+			if d := e2(hreg, mresp, s.q, s.r); d != "" {
 				rep.CorrDisagree++
 				key, what := classifyAPI(prop, s, mresp, d)
 				rep.violate(Violation{Key: key, What: what, Replay: replay})
@@ -550,6 +839,9 @@ func runAPI(cfg *config, prop string) *Report {
 			}
 			if s.reused != "" {
 				rep.violate(Violation{Key: "C11:create-reused-id:" + s.q.Kind, What: "a create that must store the upload under a new ID answered with " + s.reused + ", an ID already taken / the upload's own: an existing file is replaced instead of a new one being listed", Replay: replay})
+			}
+			if s.undec != "" {
+				rep.violate(Violation{Key: "C11:contents-do-not-decode-back", What: "GET contents answered 200 with bytes that do not decode back to the stored file: " + s.undec, Replay: replay})
 			}
 			// 3. property predicates on the implementation itself
 			if isReadKind(s.q.Kind) && s.before != s.after {
@@ -569,6 +861,7 @@ func runAPI(cfg *config, prop string) *Report {
 			}
 		}
 	}
+	setFRB(false)
 	return rep
 }
 
